@@ -445,8 +445,16 @@ impl CodegenContext {
                 symbol_nx
             );
             let parent_scope = self.current_scope_nx;
-            self.symbol_definition(symbol_nx)
-                .set_location(DefinitionLocation { parent_scope, span });
+            let location = DefinitionLocation { parent_scope, span };
+            let def = self.symbol_definition(symbol_nx);
+            match &def.location {
+                // A variable may be assigned more than once. Its first assignment is the definition,
+                // the other assignments refer to it.
+                Some(existing) if ty == SymbolType::Variable && existing != &location => {
+                    def.add_usage(location)
+                }
+                _ => def.set_location(location),
+            }
         }
 
         Ok(symbol_nx)
